@@ -111,6 +111,33 @@ func init() {
 				keys = append(keys, key{n, 65537, fmt.Sprintf("%d*%d rounds %d", pq[0], pq[1], rounds), rounds})
 			}
 		}
+		// small products whose Fermat search needs exactly k rounds: linted under k-1, k, k+1 (and back), in one process
+		neededRounds := func(p, q int64) int64 {
+			n := new(big.Int).Mul(big.NewInt(p), big.NewInt(q))
+			return (p+q)/2 - new(big.Int).Sqrt(n).Int64()
+		}
+		found := map[int64]bool{}
+		var p0 int64 = 10007
+		for p := p0; p < p0+4000 && len(found) < 8; p += 2 {
+			if !big.NewInt(p).ProbablyPrime(10) {
+				continue
+			}
+			for q := p + 2; q < p+3000; q += 2 {
+				if !big.NewInt(q).ProbablyPrime(10) || (p+q)%2 != 0 {
+					continue
+				}
+				k := neededRounds(p, q)
+				if k >= 2 && k <= 60 && !found[k] && (k == 2 || k == 3 || k == 5 || k == 14 || k == 37 || k == 60 || len(found) < 4) {
+					found[k] = true
+					n := new(big.Int).Mul(big.NewInt(p), big.NewInt(q))
+					for _, r := range []int64{k - 1, k, k + 1, k - 1, 100, 1, k} {
+						if r >= 1 {
+							keys = append(keys, key{n, 65537, fmt.Sprintf("%d*%d needs %d rounds, configured %d", p, q, k, r), int(r)})
+						}
+					}
+				}
+			}
+		}
 		nRand := 60
 		if tier() == "thorough" {
 			nRand = 1500
